@@ -75,19 +75,86 @@ def _fallback(job):
     return idx, res
 
 
+def _heap_syms(x, cache):
+    """Names of heap-array constants (H<version>!Class.field.i) occurring in x."""
+    k = x.get_id()
+    if k in cache:
+        return cache[k]
+    out, st, seen = set(), [x], set()
+    while st:
+        y = st.pop()
+        i = y.get_id()
+        if i in seen:
+            continue
+        seen.add(i)
+        if z3.is_quantifier(y):
+            st.append(y.body())
+            continue
+        if z3.is_const(y) and y.decl().kind() == z3.Z3_OP_UNINTERPRETED:
+            n = y.decl().name()
+            if n.startswith("H") and "!" in n:
+                out.add(n)
+        st.extend(y.children())
+    cache[k] = out
+    return out
+
+
+def _has_quant(x, cache):
+    k = ("q", x.get_id())
+    if k not in cache:
+        from .core import has_quantifier
+        cache[k] = has_quantifier(x)
+    return cache[k]
+
+
+def prune(pc, goal, cache):
+    """Sound weakening of the hypotheses: drop quantified hypotheses that speak only about heap versions the goal
+    does not mention (stale copies of an invariant in earlier states).  Fewer hypotheses can only lose proofs."""
+    g = _heap_syms(goal, cache)
+    key = lambda n: n.split("!")[-1]
+    gnew = {n for n in g if not n.startswith("H0!")}
+    if not gnew:
+        return None
+    gkeys = {key(n) for n in gnew}
+    keep, dropped = [], 0
+    for c in pc:
+        if _has_quant(c, cache):
+            h = _heap_syms(c, cache)
+            # stale: talks about an older version of some field the goal reads in a newer version, and about none
+            # of the goal's newer versions
+            if h and not (h & gnew) and any(key(n) in gkeys for n in h):
+                dropped += 1
+                continue
+        keep.append(c)
+    return keep if dropped else None
+
+
 def discharge(engine, obligations, procs=None, want_models=True, log=None):
     procs = procs or min(16, os.cpu_count() or 4)
     axioms = list(engine.axioms) + str_distinct_axioms()
-    jobs = []
+    jobs, pre_jobs = [], []
+    cache = {}
     for i, ob in enumerate(obligations):
         if ob.status is not None:
             continue
         ob.smt2 = to_smt2(axioms, ob.pc, ob.goal)
         jobs.append((i, ob.smt2, Z3_TIMEOUT_MS, want_models))
+        pr = prune(ob.pc, ob.goal, cache)
+        if pr is not None:
+            pre_jobs.append((i, to_smt2(axioms, pr, ob.goal), Z3_TIMEOUT_MS, False))
     if not jobs:
         return
     ctx = mp.get_context("fork")
     with ctx.Pool(procs) as pool:
+        # phase 0: pruned-hypotheses variant (only `unsat` is used from it)
+        done = set()
+        for idx, r, t, model, why in pool.imap_unordered(_work, pre_jobs, chunksize=1):
+            ob = obligations[idx]
+            ob.time += t
+            if r == "unsat":
+                ob.status, ob.backend = "proved", "z3-5.1 (pruned hypotheses)"
+                done.add(idx)
+        jobs = [j for j in jobs if j[0] not in done]
         for idx, r, t, model, why in pool.imap_unordered(_work, jobs, chunksize=1):
             ob = obligations[idx]
             ob.time += t
